@@ -336,6 +336,78 @@ class Boom(Exception):
     pass
 
 
+def _proxy_setup_failure(fail_at, use_ssl, nclients):
+    """Clients go through the real HTTPProxyConnectionPool (per-host limit 1); setting up the proxy connection fails at a chosen
+    step (connect / CONNECT tunnel refused / TLS start). Whatever failed, nothing stays checked out and the next client gets its turn."""
+    from wpull.protocol.abstract.client import BaseSession
+    from wpull.proxy.client import HTTPProxyConnectionPool
+    from wpull.errors import NetworkError
+    from harness.fakeconn import FakeConnection
+    import wpull.network.pool as P
+
+    class _S(BaseSession):
+        pass
+    fail_at = pick([0, 1, 2, 3], fail_at)              # 3: no failure
+    st = {'bad': None, 'ok': 0, 'failed': 0}
+    real = P.HappyEyeballsConnection
+
+    class PConn(FakeConnection):
+        def __init__(self):
+            FakeConnection.__init__(self, b'HTTP/1.1 403 Forbidden\r\nContent-Length: 0\r\n\r\n' if fail_at == 1 else b'HTTP/1.1 200 OK\r\n\r\n')
+            self._closed = True
+            self.key = None
+            self.wrapped_connection = None
+            self.proxied = False
+            self.tunneled = False
+
+        @asyncio.coroutine
+        def connect(self):
+            if fail_at == 0:
+                raise NetworkError('proxy refused the connection')
+            self._closed = False
+
+        @asyncio.coroutine
+        def start_tls(self, ctx=None):
+            if fail_at == 2:
+                raise NetworkError('TLS handshake failed')
+            c = PConn()
+            c._closed = False
+            return c
+
+    async def main():
+        cp = HTTPProxyConnectionPool(('proxy.example', 8080), max_host_count=1, resolver=_Resolver(), connection_factory=Conn, ssl_connection_factory=Conn)
+        for i in range(nclients):
+            sess = _S(connection_pool=cp)
+            try:
+                with sess:
+                    await sess._acquire_connection('h.example', 443 if use_ssl else 80, use_ssl, tunnel=use_ssl)
+                    st['ok'] += 1
+            except NetworkError:
+                st['failed'] += 1
+            me = asyncio.current_task()
+            others = [t for t in asyncio.all_tasks() if t is not me]
+            if others:
+                await asyncio.gather(*others, return_exceptions=True)
+            await cp._process_no_wait_releases()
+            for hp in cp.host_pools.values():
+                if hp.busy:
+                    st['bad'] = 'connection still checked out after the session ended'
+        await cp.clean(force=True)
+        if cp.host_pools:
+            st['bad'] = st['bad'] or 'bookkeeping kept for idle host'
+    nclients = pick([1, 2, 3], nclients - 1)
+    with nosym():
+        P.HappyEyeballsConnection = lambda address, factory, resolver, table, is_ssl=False: PConn()
+        try:
+            aio.run_choice(main, lambda n: 0, max_steps=3000)
+        except aio.Deadlock:
+            st['bad'] = 'deadlock: the next client waits for a connection that was never given back'
+        finally:
+            P.HappyEyeballsConnection = real
+    hit('setup-failed' if st['failed'] else 'setup-ok')
+    return st['bad'] is None
+
+
 # ---------------------------------------------------------------- bounded schedules on the real pools
 def _run_world(chooser, use_cpool, nclients, maxc, nkeys, cancel_client, cancel_step, close_client, st):
     import wpull.network.pool as P
@@ -561,6 +633,12 @@ HARNESSES = [
       doc='ALL schedules (symbolic scheduler decision at every step) of N clients on one HostPool with limit M, one client possibly '
           'cancelled at a symbolic step, one connection possibly closed while held: no sharing, |busy| <= M, no deadlock, nothing '
           'checked out and the lock free at quiescence'),
+    H('proxy_setup_failure', '_proxy_setup_failure', 'fail_at: int, use_ssl: bool, nclients: int', pre=['0 <= fail_at <= 3 and 1 <= nclients <= 3'],
+      timeout={'quick': 200, 'thorough': 400}, samples=[(3, False, 1), (0, False, 2), (1, True, 2)], need=['setup-failed', 'setup-ok'],
+      funcs=['wpull/proxy/client.py:HTTPProxyConnectionPool.acquire_proxy', 'wpull/protocol/abstract/client.py:BaseSession._acquire_connection'],
+      doc='1-3 sessions in turn through the real HTTPProxyConnectionPool (limit 1 per host) while setting up the proxy connection fails '
+          'at connect / CONNECT tunnel / TLS start: after each session nothing is checked out, the next session is not blocked, idle '
+          'bookkeeping is dropped'),
     H('schedules_host3', '_schedule_host_bounded',
       'p1: int, a1: int, p2: int, a2: int, nclients: int, maxc: int, cancel_client: int, cancel_step: int, close_client: int',
       pre={'quick': ['0 <= p1 <= 25 and 1 <= a1 <= 2 and p2 == 60 and a2 == 1 and nclients == 3 and 1 <= maxc <= 2',
